@@ -414,8 +414,8 @@ def readIprp : M Unit := do
 
 def readIref : M Unit := do
   readFlags
-  -- at the default log level a failing close of an inner box does not end the loop
-  innerLoop (fun _ => pure ()) .cont (← loopFuel)
+  -- (repaired) a failing close of an inner box ends the loop at every log level
+  innerLoop (fun _ => pure ()) .brk (← loopFuel)
   close
 
 /-- the infe walk over the peeked iinf payload: (exifId, xmlId) updates -/
